@@ -23,6 +23,7 @@ OPTIONS = {
     PQ.ANGLE: ["deg", "grad?", None],
     PQ.SPEED: ["kts", "mph?", None],
 }
+VALID = {"TEMPERATURE": ("c", "f"), "PRESSURE": ("bar", "psi"), "ANGLE": ("deg",), "SPEED": ("kts",)}     # recognised units per quantity
 SI = {"TEMPERATURE": "K", "PRESSURE": "Pa", "ANGLE": "rad", "SPEED": "m/s"}
 LABELS = {"c": {"c", "°c", "celsius"}, "f": {"f", "°f", "fahrenheit"}, "bar": {"bar"}, "psi": {"psi"}, "deg": {"deg", "°", "degree", "degrees"},
           "kts": {"kts", "kn", "knots", "knot"}}
@@ -59,6 +60,18 @@ def all_maps():
     # quantities that have no conversion
     maps.append({PQ.LENGTH: "ft", PQ.VOLUME: "gal", PQ.DISTANCE: "nm"})
     maps.append({PQ.LENGTH: "ft", PQ.ANGLE: "deg"})
+    # a unit that is recognised - for another quantity: not a recognised preference for this one
+    units = ("c", "f", "bar", "psi", "deg", "kts")
+    own = {PQ.TEMPERATURE: ("c", "f"), PQ.PRESSURE: ("bar", "psi"), PQ.ANGLE: ("deg",), PQ.SPEED: ("kts",)}
+    for q, mine in own.items():
+        for u in units:
+            if u not in mine:
+                maps.append({q: u})
+    # recognised unit names attached to quantities that have no conversion at all
+    others = [q for q in PQ if q not in own]
+    for i, q in enumerate(others):
+        maps.append({q: units[i % len(units)]})
+    maps.append({q: units[(i + 1) % len(units)] for i, q in enumerate(others)})
     return maps
 
 
@@ -86,7 +99,7 @@ def compare(defn, ref, got, prefs):
         f = defn.fields[i] if i < len(defn.fields) else None
         pq = f.pq if f is not None else None
         unit = low.get(pq) if pq else None
-        convertible = unit in LABELS and f is not None and f.unit == SI.get(pq)
+        convertible = unit in VALID.get(pq, ()) and f is not None and f.unit == SI.get(pq)
         same_meta = (a.id, a.name, a.description, a.physical_quantities, a.type, a.part_of_primary_key) == \
                     (b.id, b.name, b.description, b.physical_quantities, b.type, b.part_of_primary_key)
         if not same_meta:
@@ -193,7 +206,8 @@ def _task(args):
         has_conv = any(f.pq in SI for f in pqf)
         for fi, p, n in payload_set(defn, seed, deep):
             ref = dec_line(ref_dec, defn.pgn, p, n)
-            use = range(len(maps)) if has_conv else range(0, len(maps), 9)
+            # definitions without a convertible field: a ninth of the product maps, and every map that names other quantities
+            use = range(len(maps)) if has_conv else list(range(0, 144, 9)) + [i for i in range(144, len(maps)) if any(k not in OPTIONS for k in maps[i])]
             for mi in use:
                 got = dec_line(decs[mi], defn.pgn, p, n)
                 st["cases"] += 1
